@@ -74,10 +74,50 @@ fn gen_bsd0_plan(old: &[u8], neg: bool, rng: &mut Rng) -> (Vec<Ctrl>, Vec<u8>, V
     (ctrl, data, extra)
 }
 
-/// Edit block-table flags of a finished archive: (block index, bits to set, bits to clear).
-/// The classic block table is decrypted / re-encrypted with the public crypto functions; a V4
-/// header's MD5 of the block table and of the header itself are recomputed.
-fn edit_flags(path: &Path, edits: &[(usize, u32, u32)]) {
+/// Edit the flags of named entries of a finished archive: (stored name, bits to set, bits to clear).
+///
+/// Both views of the flags are edited so that whichever table the reader consults agrees:
+///  * the classic block table (decrypted / re-encrypted with the public crypto functions; entry index from the
+///    classic hash table);
+///  * for V3/V4 the BET table: its flags live in a small array of distinct flag words that the bit-packed entries
+///    index. Re-packing the table is avoided: the world is built so that, in an archive with a BET table, the
+///    entries to be edited are exactly the entries carrying one flag word (all full files there are encrypted), and
+///    that one word is edited in place. The BET payload is decrypted / re-encrypted as a whole (the cipher is
+///    content-keyed).
+/// A V4 header's MD5s of block table, BET table and header are recomputed. Afterwards the archive is re-opened and
+/// the flags the READER reports are compared with the intention (harness sanity check, exit 2 if not).
+fn edit_flags(path: &Path, edits: &[(String, u32, u32)]) {
+    let ar = Archive::open(path).unwrap_or_else(|e| tool_error(&format!("reopen {path:?}: {e}")));
+    let classic: Vec<usize> = edits
+        .iter()
+        .map(|(sn, _, _)| {
+            ar.hash_table()
+                .and_then(|h| h.find_file(sn, 0))
+                .map(|(_, e)| e.block_index as usize)
+                .unwrap_or_else(|| tool_error(&format!("flagging: {sn} not in the classic hash table")))
+        })
+        .collect();
+    // BET view: which flag word do the entries to edit carry, and is it theirs alone?
+    let mut bet_word: Option<(u32, u32)> = None; // (old word, new word)
+    if let Some(bet) = ar.bet_table() {
+        if bet.header.file_count > 0 {
+            let pre: Vec<u32> = edits
+                .iter()
+                .map(|(sn, _, _)| ar.find_file(sn).ok().flatten().unwrap_or_else(|| tool_error("flagging: entry not found")).flags)
+                .collect();
+            let v0 = pre[0];
+            let (set, clear) = (edits[0].1, edits[0].2);
+            if pre.iter().any(|&x| x != v0) || edits.iter().any(|e| (e.1, e.2) != (set, clear)) {
+                tool_error("world: in an archive with a BET table all patch entries must share one storage form");
+            }
+            let users = (0..bet.header.file_count).filter(|&i| bet.get_file_info(i).map(|x| x.flags) == Some(v0)).count();
+            if users != edits.len() {
+                tool_error(&format!("world: BET flag word {v0:08x} is used by {users} entries, {} are to be edited", edits.len()));
+            }
+            bet_word = Some((v0, (v0 | set) & !clear));
+        }
+    }
+    drop(ar);
     let mut f = std::fs::read(path).unwrap_or_else(|e| tool_error(&format!("read {path:?}: {e}")));
     if &f[0..4] != b"MPQ\x1a" {
         tool_error("world archive does not start with an MPQ header at offset 0");
@@ -88,7 +128,8 @@ fn edit_flags(path: &Path, edits: &[(usize, u32, u32)]) {
     let bt_hi = if version >= 1 { u16::from_le_bytes([f[0x2A], f[0x2B]]) as usize } else { 0 };
     let bt_pos = rd(&f, 0x14) as usize + (bt_hi << 32);
     let bt_n = rd(&f, 0x1C) as usize;
-    if version >= 3 && hdr_size >= 0xD0 {
+    let v4 = version >= 3 && hdr_size >= 0xD0;
+    if v4 {
         let stored = u64::from_le_bytes(f[0x4C..0x54].try_into().unwrap()) as usize;
         if stored != bt_n * 16 {
             tool_error("world archive has a compressed block table; cannot edit flags");
@@ -97,7 +138,8 @@ fn edit_flags(path: &Path, edits: &[(usize, u32, u32)]) {
     let key = hash_string("(block table)", hash_type::FILE_KEY);
     let mut words: Vec<u32> = (0..bt_n * 4).map(|i| rd(&f, bt_pos + 4 * i)).collect();
     decrypt_block(&mut words, key);
-    for &(bi, set, clear) in edits {
+    for (k, &(_, set, clear)) in edits.iter().enumerate() {
+        let bi = classic[k];
         if bi >= bt_n {
             tool_error("block index out of range while flagging a patch entry");
         }
@@ -107,13 +149,59 @@ fn edit_flags(path: &Path, edits: &[(usize, u32, u32)]) {
     for (i, w) in words.iter().enumerate() {
         f[bt_pos + 4 * i..bt_pos + 4 * i + 4].copy_from_slice(&w.to_le_bytes());
     }
-    if version >= 3 && hdr_size >= 0xD0 {
+    if let Some((old, new)) = bet_word {
+        let bet_pos = u64::from_le_bytes(f[0x34..0x3C].try_into().unwrap()) as usize;
+        if bet_pos == 0 || bet_pos + 12 > f.len() || rd(&f, bet_pos) != 0x1A54_4542 {
+            tool_error("world archive: BET table not found where the header says");
+        }
+        let data_size = rd(&f, bet_pos + 8) as usize;
+        if bet_pos + 12 + data_size > f.len() {
+            tool_error("world archive has a compressed BET table; cannot edit flags");
+        }
+        if v4 {
+            let stored = u64::from_le_bytes(f[0x64..0x6C].try_into().unwrap()) as usize;
+            if stored != 12 + data_size {
+                tool_error("world archive has a compressed BET table; cannot edit flags");
+            }
+        }
+        let n = data_size / 4; // a trailing partial word is keyed by position only and stays as it is
+        let base = bet_pos + 12;
+        let mut w: Vec<u32> = (0..n).map(|i| rd(&f, base + 4 * i)).collect();
+        decrypt_block(&mut w, key);
+        let flag_count = w[18] as usize;
+        let hits: Vec<usize> = (0..flag_count).filter(|&j| w[19 + j] == old).collect();
+        if hits.len() != 1 {
+            tool_error(&format!("world archive: BET flag word {old:08x} occurs {} times in the flag array", hits.len()));
+        }
+        w[19 + hits[0]] = new;
+        encrypt_block(&mut w, key);
+        for (i, x) in w.iter().enumerate() {
+            f[base + 4 * i..base + 4 * i + 4].copy_from_slice(&x.to_le_bytes());
+        }
+        if v4 {
+            let m = md5_raw(&f[bet_pos..bet_pos + 12 + data_size]);
+            f[0xA0..0xB0].copy_from_slice(&m);
+        }
+    }
+    if v4 {
         let m = md5_raw(&f[bt_pos..bt_pos + bt_n * 16]);
         f[0x70..0x80].copy_from_slice(&m);
         let h = md5_raw(&f[0..0xC0]);
         f[0xC0..0xD0].copy_from_slice(&h);
     }
     std::fs::write(path, f).unwrap_or_else(|e| tool_error(&format!("write {path:?}: {e}")));
+    // what does the reader see now?
+    let ar = Archive::open(path).unwrap_or_else(|e| tool_error(&format!("world archive unreadable after the flag edit: {e}")));
+    for (sn, set, clear) in edits {
+        let fl = ar.find_file(sn).ok().flatten().unwrap_or_else(|| tool_error("flag edit: entry lost")).flags;
+        if fl & set != *set || fl & clear != 0 {
+            tool_error(&format!("flag edit of {sn} is not visible to the reader: flags {fl:08x}, wanted +{set:08x} -{clear:08x}"));
+        }
+    }
+    match ar.find_file("(listfile)") {
+        Ok(Some(i)) if i.flags & F_PATCH == 0 => {}
+        _ => tool_error("flag edit damaged the (listfile) entry"),
+    }
 }
 
 const F_PATCH: u32 = 0x0010_0000;
@@ -299,7 +387,9 @@ fn build_world(w: &Value, dir: &Path, seed: u64) -> World {
                     // alternate compression so that both stored forms occur
                     let id = gs(e, "c");
                     let comp = if id.starts_with("Br") { 0 } else if id.starts_with("Bt") { 0x02 } else if bytes[id].len() % 2 == 0 { 0x02 } else { 0 };
-                    b = b.add_file_data_with_options(bytes[gs(e, "c")].clone(), &sn, comp, false, 0);
+                    // archives with a BET table (V3/V4): full files are encrypted, so that the flag word of the
+                    // raw patch entries is theirs alone (see edit_flags)
+                    b = b.add_file_data_with_options(bytes[gs(e, "c")].clone(), &sn, comp, ver >= 3, 0);
                 }
                 "patch" => {
                     let sto = e.get("sto").and_then(|x| x.as_str()).unwrap_or("raw");
@@ -319,15 +409,7 @@ fn build_world(w: &Value, dir: &Path, seed: u64) -> World {
         lf_content.insert(a.clone(), listed.into_bytes());
         b.build(&path).unwrap_or_else(|e| tool_error(&format!("building world archive {a}: {e}")));
         if !flagged.is_empty() {
-            let ar = Archive::open(&path).unwrap_or_else(|e| tool_error(&format!("reopen {a}: {e}")));
-            let idx: Vec<(usize, u32, u32)> = flagged
-                .iter()
-                .map(|(sn, set, clear)| {
-                    (ar.find_file(sn).ok().flatten().unwrap_or_else(|| tool_error("flagging: entry not found")).block_index, *set, *clear)
-                })
-                .collect();
-            drop(ar);
-            edit_flags(&path, &idx);
+            edit_flags(&path, &flagged);
         }
         by_path.insert(path.clone(), a.clone());
         paths.insert(a.clone(), path);
